@@ -141,11 +141,16 @@ def judge_populations(case, res, prior, calls, prev_pops=0):
             return ('C07:population-size', dict(info, size=len(params), n_samples=n))
         # threshold in force
         kind, vals = sched
+        # per-round (kind, value): the rounds of an earlier call keep the kind of that call
+        per_round = [(kind, v) for v in vals]
+        if prev_pops:
+            per_round = [(case.get('first_kind', kind), v) for v in case.get('first_schedule', [])] + per_round
+        kind = per_round[i][0] if i < len(per_round) else kind
         if kind == 'thresholds':
-            seq = list(case.get('first_schedule', [])) + list(vals) if prev_pops else list(vals)
+            seq = [v for _, v in per_round]
             thr_in_force = {float(seq[i])} if i < len(seq) else None
         else:
-            qseq = (list(case.get('first_schedule', [])) + list(vals)) if prev_pops else list(vals)
+            qseq = [v for _, v in per_round]
             if i == 0:
                 thr_in_force = None      # round 0: plain quantile rejection, threshold = n-th smallest of ceil(n/q) draws
             else:
@@ -227,7 +232,7 @@ def run_smc(case):
         calls = models.CALLS.get('sim', 0)
         if len(res2.populations) != len(vals) + len(vals2):
             return bad('C07:continued:number-of-populations', {'got': len(res2.populations)})
-        case2 = dict(case, schedule=[kind2, vals2], first_schedule=list(vals))
+        case2 = dict(case, schedule=[kind2, vals2], first_schedule=list(vals), first_kind=kind)
         v = judge_populations(case2, res2, prior, calls, prev_pops=len(vals))
         if isinstance(v, tuple) and v[0] is None:
             return ok(outcome='degenerate', trivial=True, degenerate=1)
@@ -276,7 +281,11 @@ def run(ctx):
             for n in (3, 4):
                 for first, second in ((['thresholds', [2.0]], ['thresholds', [1.0]]),
                                       (['thresholds', [2.0, 1.5]], ['thresholds', [1.0, 0.8]]),
-                                      (['quantiles', [0.5]], ['quantiles', [0.5]])):
+                                      (['quantiles', [0.5]], ['quantiles', [0.5]]),
+                                      # the kind of schedule changes between the two calls
+                                      (['quantiles', [0.5, 0.5]], ['thresholds', [1.0, 0.8]]),
+                                      (['quantiles', [0.5, 0.5, 0.5]], ['thresholds', [0.9]]),
+                                      (['thresholds', [2.0, 1.5]], ['quantiles', [0.5]])):
                     for s in seeds:
                         cases.append({'kind': 'smc', 'model': model, 'bs': bs, 'n_samples': n, 'schedule': first,
                                       'continue': second, 'seed': s})
